@@ -30,6 +30,26 @@ Theorem C34_full_names_track_and_risk : forall (sys s arch : bytes) (c : chan),
 Proof. exact full_names_track_and_risk. Qed.
 Print Assumptions C34_full_names_track_and_risk.
 
+(* the string-level Full(s): normalising twice equals normalising once, for every byte string on which it succeeds *)
+Theorem C34_full_idempotent : forall s r : bytes, full_of_string s = Some r -> full_of_string r = Some r.
+Proof. exact full_string_idempotent. Qed.
+Print Assumptions C34_full_idempotent.
+
+(* ... and its result is empty (no component in s) or track/risk or track/risk/branch with no empty component; where Full
+   itself fills in or places the risk (s has one component, or two starting with a risk name) the risk position holds one of
+   the four risks. Full does not validate a risk that the input supplies after a track: Full(foo/bar) = foo/bar and
+   Full(a/b/c) = a/b/c, so `risk from the table` cannot be claimed for those inputs (it is claimed, and proved, for parsed
+   channels in C34_full_names_track_and_risk). *)
+Theorem C34_full_shape : forall s r : bytes, full_of_string s = Some r ->
+  r = [] \/
+  exists cs, split_slash r = cs /\ (List.length cs = 2%nat \/ List.length cs = 3%nat) /\
+             Forall (fun c => c <> []) cs /\
+             ((List.length (fields_slash s) = 1%nat \/
+               (List.length (fields_slash s) = 2%nat /\ is_risk (hd [] (fields_slash s)) = true)) ->
+              In (nth 1 cs []) risks).
+Proof. exact full_string_shape. Qed.
+Print Assumptions C34_full_shape.
+
 (* a request that starts with a risk name is resolved to <current track>/<request> when the current channel has a track *)
 Theorem C34_resolve_risk_first : forall (cur new : bytes) (ch : chan),
   parse_verbatim [] cur dash = Some ch -> is_nil_b new = false -> is_risk (hd_comp new) = true ->
@@ -93,4 +113,8 @@ Proof. vm_compute. reflexivity. Qed.
 Example C34_ex_pinned_switch : resolve_pinned (bs "foo") (bs "bar/edge") = PSwitch.
 Proof. vm_compute. reflexivity. Qed.
 Example C34_ex_pinned_invalid : resolve_pinned (bs "foo/edge") (bs "edge") = PInvalid.
+Proof. vm_compute. reflexivity. Qed.
+Example C34_ex_fullstr : full_of_string (bs "edge//fix") = Some (bs "latest/edge/fix").
+Proof. vm_compute. reflexivity. Qed.
+Example C34_ex_fullstr_unvalidated : full_of_string (bs "foo/bar") = Some (bs "foo/bar").
 Proof. vm_compute. reflexivity. Qed.
